@@ -127,6 +127,16 @@ func ghostSort(e *Enc, s string) (string, types.Type) {
 		return "Int", nil
 	case "bytes":
 		return "(Array Int Int)", nil
+	case "tp":
+		return "TP", nil
+	}
+	if obj := types.Universe.Lookup(s); obj != nil {
+		if b, ok := obj.Type().(*types.Basic); ok && b.Info()&types.IsInteger != 0 {
+			if e != nil && e.bv {
+				return fmt.Sprintf("(_ BitVec %d)", intBits(b)), b
+			}
+			return "Int", nil
+		}
 	}
 	if strings.HasPrefix(s, "[") {
 		depth := 0
@@ -236,15 +246,14 @@ func (env *specEnv) eval(x SExpr) SV {
 		var binders []string
 		var ranges []Term
 		for _, v := range x.Vars {
-			srt, _ := ghostSort(e, v.Sort)
-			var gt types.Type
-			if v.Sort == "byte" {
+			srt, gt := ghostSort(e, v.Sort)
+			if v.Sort == "byte" && !e.bv {
 				srt = "Int"
 			}
 			name := v.Name + "!q"
 			ne = ne.bind(v.Name, SV{T: name, Sort: srt, GT: gt})
 			binders = append(binders, fmt.Sprintf("(%s %s)", name, srt))
-			if v.Sort == "byte" {
+			if v.Sort == "byte" && !e.bv {
 				ranges = append(ranges, tAnd(tLe("0", name), tLe(name, "255")))
 			}
 		}
@@ -420,6 +429,11 @@ func (env *specEnv) binop(x *SBin) SV {
 	if a.Sort != "Int" || b.Sort != "Int" {
 		env.fail("arithmetic on %s/%s in %s", a.Sort, b.Sort, specString(x))
 	}
+	if fn, ok := map[string]string{"|": "bit_or", "&": "bit_and", "^": "bit_xor", "<<": "bit_shl", ">>": "bit_shr", "&^": "bit_andnot"}[x.Op]; ok {
+		// same uninterpreted functions the int-mode encoding of the Go operators uses
+		env.e.declareFun(fn, []string{"Int", "Int"}, "Int")
+		return SV{T: sx(fn, a.T, b.T), Sort: "Int"}
+	}
 	switch x.Op {
 	case "+", "-", "*":
 		return SV{T: sx(x.Op, a.T, b.T), Sort: "Int"}
@@ -572,7 +586,10 @@ func (env *specEnv) local(name string) (SV, bool) {
 				bestDepth = 1 << 30
 				continue
 			}
-			if !(blk.Dominates(env.atBlock) && blk != env.atBlock) {
+			if !blk.Dominates(env.atBlock) {
+				continue
+			}
+			if blk == env.atBlock && !env.atInstr {
 				continue
 			}
 		}
@@ -900,6 +917,42 @@ func (env *specEnv) call(x *SCall) SV {
 			env.fail("unknown interface %s", name)
 		}
 		return SV{T: e.implementsPred(v.T, it), Sort: "Bool"}
+	case "at":
+		// at(L, e): e evaluated in the state saved by `at <anchor> label L`
+		lid, ok := x.Args[0].(*SIdent)
+		if !ok || len(x.Args) != 2 {
+			env.fail("at(label, expr)")
+		}
+		st, ok := e.labels[lid.Name]
+		if !ok {
+			env.fail("label %s is not defined before this point", lid.Name)
+		}
+		return env.withState(st, env.old).eval(x.Args[1])
+	case "held", "heldw", "heldr":
+		// held(x.lock): the mutex field is held by this goroutine (any mode / write / read)
+		sel, ok := x.Args[0].(*SSel)
+		if !ok {
+			env.fail("%s(x.lockfield)", id.Name)
+		}
+		b := env.eval(sel.X)
+		pt, ok := b.GT.Underlying().(*types.Pointer)
+		if !ok {
+			env.fail("%s: base is not a pointer", id.Name)
+		}
+		su := pt.Elem().Underlying().(*types.Struct)
+		for i := 0; i < su.NumFields(); i++ {
+			if su.Field(i).Name() == sel.Sel {
+				h := tSel(e.heldArr(env.cur), sx("subref", b.T, tInt(int64(i))))
+				switch id.Name {
+				case "heldw":
+					return SV{T: tEq(h, "2"), Sort: "Bool"}
+				case "heldr":
+					return SV{T: tEq(h, "1"), Sort: "Bool"}
+				}
+				return SV{T: tNot(tEq(h, "0")), Sort: "Bool"}
+			}
+		}
+		env.fail("%s: no field %s", id.Name, sel.Sel)
 	case "deref":
 		// deref(v, "T"): the T-typed cell designated by pointer v (or by the pointer boxed in interface v)
 		l := env.derefLoc(x)
@@ -954,8 +1007,8 @@ func (env *specEnv) call(x *SCall) SV {
 			args = append(args, a.T)
 		}
 		e.usePure(pf)
-		rs, _ := ghostSort(e, pf.Sort)
-		return SV{T: sx(smtName("pf$"+pf.Name), args...), Sort: rs}
+		rs, rgt := ghostSort(e, pf.Sort)
+		return SV{T: sx(smtName("pf$"+pf.Name), args...), Sort: rs, GT: rgt}
 	}
 	env.fail("unknown spec function %q", id.Name)
 	return SV{}
@@ -972,10 +1025,10 @@ func (e *Enc) usePure(pf *PureFunc) {
 	var binders []string
 	env := &specEnv{e: e, cur: e.init, old: e.init, vars: map[string]SV{}, ptrVars: map[string]ptrVar{}, noLocals: true}
 	for _, p := range pf.Params {
-		srt, _ := ghostSort(e, p.Sort)
+		srt, gt := ghostSort(e, p.Sort)
 		ps = append(ps, srt)
 		binders = append(binders, fmt.Sprintf("(%s %s)", p.Name+"!p", srt))
-		env.vars[p.Name] = SV{T: p.Name + "!p", Sort: srt}
+		env.vars[p.Name] = SV{T: p.Name + "!p", Sort: srt, GT: gt}
 	}
 	rs, _ := ghostSort(e, pf.Sort)
 	name := smtName("pf$" + pf.Name)
@@ -1067,4 +1120,18 @@ func (env *specEnv) derefLoc(x *SCall) *Loc {
 		ref = sx("i-val", v.T)
 	}
 	return env.e.refLoc(ref, t)
+}
+
+// tryEvalBool evaluates a clause; false if it refers to identifiers unknown in this environment.
+func (env *specEnv) tryEvalBool(x SExpr, anyError bool) (t Term, ok bool) {
+	defer func() {
+		if r := recover(); r != nil {
+			if ee, isEnc := r.(encErr); isEnc && (anyError || strings.Contains(string(ee), "unknown identifier")) {
+				t, ok = "", false
+				return
+			}
+			panic(r)
+		}
+	}()
+	return env.evalBool(x), true
 }
